@@ -3,3 +3,4 @@ pub mod ratelimiter;
 pub mod circuitbreaker;
 pub mod budget;
 pub mod adaptive;
+pub mod retry;
